@@ -5,7 +5,7 @@ import os
 from . import core
 
 HOOK_COMMITS = ["e03d988"]
-FIX_COMMITS = ["7c26a95", "7fa90f0", "f0c087a", "e99193e"]
+FIX_COMMITS = ["7c26a95", "7fa90f0", "f0c087a", "e99193e", "e23743b"]
 
 BASELINE_OFF = ("cd /repo && GOFLAGS=-mod=mod go test -json -vet=off -count=1 -timeout 25m ./...")
 
@@ -46,6 +46,11 @@ CHECKS = {
             "For every generated program (random indentation units incl. tabs, blank and comment lines, re-opened applications and types, multi-file partitions via C04's plans) every application, type, field, endpoint (simple, REST method, event, subscription) and statement must carry exactly one location per declaration, in declaration order, at the file/line/column where the renderer wrote its first character, with end not before start.",
             "Columns count characters (a tab is one); annotations and parameters are not tracked.",
             "DESIGN.md §6 C08"),
+    "C01": ("exploration",
+            "Command.tla life cycle (start -> model | error; no action for panic, fatal, timeout) model-checked by TLC; TLC-enumerated construct table (WildGen.tla) and TLC-enumerated corruptions of TLC-generated valid programs compiled by the real parser in a guarded goroutine; every recorded run validated by TLC (CommandTrace.tla)",
+            "The judge is small (a run is start then ok or error); the value is in the generator: TLC enumerates every type position x primitive x size form (incl. overflowing digits) x wrapper x optional, every name position x odd name (%-escapes, keywords, separators), each also reached through an import, plus (operation x position) near-misses of generated valid programs and corpus files truncated at line boundaries. A panic is classified by its first frame inside the repository; a fatal runtime error that kills the driver is attributed to the running scenario and the driver restarted.",
+            "In-process compile with a 10 s bound (30 s confirmation); exit-status mapping of the CLI is covered by C20.",
+            "DESIGN.md §6 C01"),
 }
 
 PENDING = {}
